@@ -2,7 +2,7 @@ SPECIFICATION GenSpec
 CONSTANTS
   IPs = {1, 2, 3}
   Slots = {1, 2, 3}
-  Shapes <- ShapesG
+  Shapes <- ShapesH
   Openers <- OpenersH
   MaxUpd = 2
   MaxLk = 9
